@@ -79,6 +79,7 @@ def run(rep, tier):
     check_grid_setup(rep, F)
     check_getcell(rep, F)
     check_simple_iterators(rep, F)
+    check_is_excluded(rep, F)
     rep.assumptions += ["completeness of the cell scan (every pair within the cutoff lies in neighbouring cells) and duplicate-freeness for all cell counts are geometric facts not decided here",
                         "exclusion-list construction from bonded interactions (CreateExclusions) is not decided"]
 
@@ -502,3 +503,74 @@ def check_simple_iterators(rep, F):
                         ok = ok or (after and s_diff == "begin(%s)" % p2)
             rep.check(ok, "R3.4", "NBList::Generate|one-list-start", "same list: inner iterator starts one past the outer; different lists: at the beginning of the second",
                       "NBList::Generate: %s - when both lists are the same the inner iterator must start after the outer one (pairs twice / self pairs), otherwise at list2.begin()" % why, f.loc())
+
+
+def check_is_excluded(rep, F):
+    """ExclusionList::IsExcluded is a membership test over the COMPLETE partner list of the smaller-id bead: true exactly when bead2 is found (std::find over
+    [begin, end) or a scan that returns on equality and has no other way out of the loop); a scan that stops early assumes an order the list does not have"""
+    from vsa.cases import executes
+    rep.rule("R3.8", "ExclusionList::IsExcluded(a, b): different molecules -> false; otherwise true exactly when the larger-id bead is in the partner list of the smaller-id bead, "
+                     "searched over the whole list (no early stop on an assumed ordering)")
+    f = F.one(C + "ExclusionList::IsExcluded")
+    rep.analysed(f)
+    fo = Fold(f).run()
+    conds = getattr(fo, "conds", {})
+    rets = [e for e in fo.events if e["kind"] == "return"]
+    trues = [e for e in rets if e["value"] in (True, sp.true)]
+    ok, why = len(trues) == 1, "expected one 'found' return, got %d" % len(trues)
+    if ok:
+        e = trues[0]
+        lids = [g[0][1] for g in e["guards"] if isinstance(g[0], tuple) and g[0] and g[0][0] == "loop"]
+        last = e["guards"][-1]
+        lst = None
+        if lids:
+            lp = [l for l in getattr(fo, "loops", []) if l["lid"] == lids[-1]][0]
+            lst = lp.get("range")
+            var = lp.get("var")
+            eq = isinstance(last[0], tuple) and last[0][0] == "==" and last[1] is True and var in last[0][1:]
+            ok, why = eq and lst is not None, "the scan does not return true on 'partner == the other bead'"
+            if ok and lp.get("breaks"):
+                ok, why = False, ("the scan over the partner list is left early when %s: partners are appended in the order the interactions list them, not by id, so a partner stored "
+                                  "behind a larger id is never reached and a pair sharing an interaction is reported as not excluded" % fo.cond_str(lp["breaks"][0][0])[:160])
+            if ok:
+                other_exits = [r_ for r_ in rets if r_ is not e and any(isinstance(g[0], tuple) and g[0] and g[0][0] == "loop" and g[0][1] == lids[-1] for g in r_["guards"])]
+                ok, why = not other_exits, "the scan returns from inside the loop for another reason than a match"
+            probe = [x for x in last[0][1:] if x != var][0] if ok else None
+        else:
+            c = last[0]
+            fnd = [x for x in (c[1:] if isinstance(c, tuple) and len(c) == 3 else []) if str(getattr(x, "func", "")) == "find" and len(x.args) == 3]
+            ok = isinstance(c, tuple) and c[0] == "!=" and last[1] is True and len(fnd) == 1 and str(fnd[0].args[0]).startswith("begin(") and str(fnd[0].args[1]).startswith("end(") \
+                and str(fnd[0].args[0])[6:] == str(fnd[0].args[1])[4:] and [x for x in c[1:] if x is not fnd[0]] and str([x for x in c[1:] if x is not fnd[0]][0]) == str(fnd[0].args[1])
+            why = "the 'found' condition %s is not std::find over the whole partner list" % fo.cond_str(c)[:160]
+            lst = fnd[0].args[0].args[0] if ok and getattr(fnd[0].args[0], "args", None) else None
+            probe = fnd[0].args[2] if ok else None
+        if ok:
+            ok = "exclude_" in str(lst) and "GetExclusions(this, " in str(lst)
+            why = "the list searched is %s, not the partner list of a bead" % lst
+        if ok:
+            # key = the smaller-id bead, probe = the other one: by cases of the id order
+            p1, p2 = [p_["name"] for p_ in f.j["params"][:2]]
+            key = re.search(r"GetExclusions\(this, (.*?)\)\)", str(lst) + ")")
+            keyv = key.group(1) if key else "?"
+
+            def ord_orc(lf):
+                if isinstance(lf, tuple) and len(lf) == 3 and lf[0] in ("<", ">", "<=", ">="):
+                    a_, b_ = str(lf[1]), str(lf[2])
+                    if {a_, b_} == {"getId(%s)" % p1, "getId(%s)" % p2}:
+                        lt = (lf[0] in ("<", "<=")) == (a_ == "getId(%s)" % p2)       # "id(p2) < id(p1)"
+                        return ("P2SMALLER", lt)
+                return None
+            from vsa.cases import decide, resolve_ite
+            for p2small in (True, False):
+                A = {"P2SMALLER": p2small}
+                pick = lambda cs: decide(conds[cs], None, A, ord_orc, conds) if cs in conds else None
+                kv = resolve_ite(S(keyv) if not hasattr(keyv, "args") else keyv, pick)
+                # the key/probe expressions are folded values: resolve them from the events' symbols
+                kx = [x for x in sp.preorder_traversal(lst) if str(getattr(x, "func", "")) == "GetExclusions"]
+                kval = resolve_ite(kx[0].args[-1], pick) if kx and hasattr(kx[0].args[-1], "args") else (kx[0].args[-1] if kx else None)
+                pval = resolve_ite(probe, pick) if hasattr(probe, "args") else probe
+                want_k, want_p = (p2, p1) if p2small else (p1, p2)
+                if str(kval) != want_k or str(pval) != want_p:
+                    ok, why = False, "with id(%s) %s id(%s) the list of %s is searched for %s (required: the smaller-id bead's list for the other bead)" % (p2, "<" if p2small else ">=", p1, kval, pval)
+                    break
+    rep.check(ok, "R3.8", "is-excluded", "membership over the whole partner list of the smaller-id bead", "ExclusionList::IsExcluded: " + why, f.loc(), sample=True)
